@@ -59,6 +59,7 @@ Section Laws.
   Context {circ state obs params layout wiring dist outcome bitfun : Type}.
   Variable sem : circ -> params -> state.
   Variable compose : circ -> circ -> circ.
+  Variable apply : circ -> params -> state -> state.
   Variable permute : layout -> state -> state.
   Variable relabel : layout -> obs -> obs.
   Variable wid : circ -> wiring.
@@ -70,6 +71,8 @@ Section Laws.
   Variable agg_bits : bitfun -> Q -> list (outcome * Q) -> Q.
 
   (* ---- the laws ---- *)
+  (* a.compose(c) prepares: first a, then the bound c applied to that state *)
+  Hypothesis sem_compose : forall a c p, sem (compose a c) p = apply c p (sem a p).
   (* an observable moved along a layout has, in the state moved along the same layout, the same expectation value *)
   Hypothesis expect_relabel : forall pi ob s, expect (relabel pi ob) (permute pi s) = expect ob s.
   (* the classical register read through the re-wired measurements is layout invariant *)
@@ -113,14 +116,17 @@ Section Laws.
     destruct (Z.eqb_spec shots 0); [contradiction | reflexivity].
   Qed.
 
+  Lemma prepared_sem init c p : sem (with_init compose init c) p = prepared sem apply init c p.
+  Proof. destruct init; simpl; [apply sem_compose | reflexivity]. Qed.
+
   Lemma mqd_spec st init circuits pvals shots : ok st -> shots <> 0%Z ->
     measure_quasi_distributions wid (wrap_sampler wmap st (pointwise sampler1)) (map (with_init compose init) circuits) pvals shots
-    = Ok (map (fun cp => resolved sem compose wid read counts_of shots init (fst cp) (snd cp)) (combine circuits pvals)).
+    = Ok (map (fun cp => resolved sem compose apply wid read counts_of shots init (fst cp) (snd cp)) (combine circuits pvals)).
   Proof.
     intros Hok Hs. unfold measure_quasi_distributions. rewrite wrapped_sampler by assumption. simpl.
     rewrite (mapM_ok_map _ (quasi_of shots)) by (intros; apply to_quasi_ok; assumption).
     f_equal. rewrite !map_map, !combine_map_l, !map_map. apply map_ext. intros [c p]. simpl.
-    rewrite sampler1_sem. reflexivity.
+    rewrite sampler1_sem. unfold resolved. rewrite <- prepared_sem. reflexivity.
   Qed.
 
   (* ---- C03 ---- *)
@@ -129,9 +135,9 @@ Section Laws.
            (circuits : list circ) (pvals : list params),
       ok st -> shots <> 0%Z -> alpha_ok alpha = true ->
       (forall ob, eval_operator_sampler compose wid agg_op (wrap_sampler wmap st (pointwise sampler1)) shots ob alpha init circuits pvals
-                  = Ok (map (objective_op sem compose wid read counts_of agg_op shots ob alpha init) (combine circuits pvals)))
+                  = Ok (map (objective_op sem compose apply wid read counts_of agg_op shots ob alpha init) (combine circuits pvals)))
       /\ (forall f, eval_bitstring compose wid agg_bits (wrap_sampler wmap st (pointwise sampler1)) shots f alpha init circuits pvals
-                  = Ok (map (objective_bits sem compose wid read counts_of agg_bits shots f alpha init) (combine circuits pvals))).
+                  = Ok (map (objective_bits sem compose apply wid read counts_of agg_bits shots f alpha init) (combine circuits pvals))).
   Proof.
     intros st shots alpha init circuits pvals Hok Hs Ha.
     split; intros x; unfold eval_operator_sampler, eval_bitstring; rewrite Ha; simpl;
@@ -143,11 +149,11 @@ Section Laws.
            (circuits : list circ) (pvals : list params),
       ok st ->
       eval_estimator compose (wrap_estimator relabel false st (pointwise estimator1)) ob init circuits pvals
-      = Ok (map (objective_est sem compose expect ob init) (combine circuits pvals)).
+      = Ok (map (objective_est sem apply expect ob init) (combine circuits pvals)).
   Proof.
     intros st ob init circuits pvals Hok. unfold eval_estimator. rewrite wrapped_estimator by assumption.
     f_equal. rewrite map_map, combine_map_l, map_map. apply map_ext. intros [c p]. simpl.
-    rewrite estimator1_sem. reflexivity.
+    rewrite estimator1_sem. unfold objective_est. simpl. rewrite <- prepared_sem. reflexivity.
   Qed.
 
   (* results are positional: as many values as (circuit, parameter) pairs, in their order *)
